@@ -10,7 +10,7 @@ R-C03-3  refusal guards: empty / mismatched inputs; every member agrees with mem
 from bpsa.facts import callee_decl, callee_name
 from bpsa.normal import canon
 from bpsa.terms import walk, short, TERM_IDX, mk_elem
-from .common import guard_table
+from .common import guard_table, unconditional
 from . import msm
 
 LEVEL_TEXT = ('Static analysis (loop structure, must-pass-through and guard normal forms over MIR). Decides that verify_batch hands every '
@@ -255,6 +255,8 @@ def r3(ctx, vb, core):
     def member_ctx(c):
         """is the context a quantification over every batch member other than (at most) the reference member 0?"""
         fa = [x for x in c if x[0] == 'forall']
+        if not unconditional(c):
+            return False
         for f in fa:
             s = f[1]
             if 'p1' in s and 'rev(' not in s and 'take(' not in s and 'step_by' not in s and 'filter' not in s:
@@ -310,7 +312,9 @@ def prefix_guards(ctx, rule, cons, flat=None):
                 s = a[2][0]
                 if 'each(p1)' in s and fld in s and s.count(fld) >= 2 and s.startswith('zip('):
                     foralls = [x for x in c if x[0] == 'forall']
-                    whole = any('p1' in x[1] and 'skip(' not in x[1] and 'take(' not in x[1] for x in foralls)
+                    # the only member exempt from the comparison is the selected one itself (index test)
+                    only_self = unconditional(c, lambda x: x[0] == 'cmp' and x[1] == 'Ne' and any(y.startswith('idx(') for y in x[2:4]))
+                    whole = only_self and any('p1' in x[1] and 'skip(' not in x[1] and 'take(' not in x[1] for x in foralls)
                     other = 'idx(' in s or "p1[" in s
                     if whole and other:
                         hit = r
